@@ -25,7 +25,7 @@
 //!   seeddraw.<Prior> -   <params…> <seed>  -> <mu> <sigma>  (NormalGamma | NormalInvGamma | NormalInvChiSquared: the drawn Gaussian)
 //!   seeddraw.NormalInvWishart - L<d> mu0 k df L<d*d> scale <seed>  -> L<d> mu L<d*d> cov   (the drawn MvGaussian, row-major)
 //!   draw.MixtureGaussian f64 L<k> w… L<k> mu… L<k> sigma… L<m> word…  -> <value> <supports> <#words>   (impl only: component = ziggurat)
-//!   hist.UnitPowerLaw f64 alpha1 alpha2 L2 w0 w1  -> <draw under alpha1 (word w0)> <draw after set_alpha(alpha2) (word w1)> <invcdf(0.5) after>
+//!   drawhist.UnitPowerLaw f64 alpha1 alpha2 L2 w0 w1  -> <draw under alpha1 (word w0)> <draw after set_alpha(alpha2) (word w1)> <invcdf(0.5) after>
 //!
 //! params:  Bernoulli p | Laplace mu b | Gev loc scale shape | Kumaraswamy a b | UnitPowerLaw alpha | Geometric p |
 //!          DiscreteUniform a b (ints of the kind) | Uniform a b | KsTwoAsymptotic (none) | Categorical L<k> ln_w… |
@@ -374,7 +374,7 @@ pub fn dispatch(op: &str, kind: &str, a: &mut Args) -> Option<String> {
             let d = Mixture::new_unchecked(ws, comps);
             draw1::<f64, _>(&d, a)
         }
-        "hist.UnitPowerLaw" => {
+        "drawhist.UnitPowerLaw" => {
             let mut d = UnitPowerLaw::new_unchecked(a.f());
             let alpha2 = a.f();
             let words = a.words();
